@@ -63,7 +63,7 @@ func execute(dir string, j job) result {
 	p := vx.Catch(func() {
 		switch j.Mode {
 		case "run":
-			pl, err := codegen.PipelineFromFile(cfg, codegen.Parameters(nil))
+			pl, err := codegen.PipelineFromFile(cfg, codegen.Parameters(map[string]string{"extra_one": "1", "extra_two": "%extra_one%2"}))
 			if err != nil {
 				obs["!status"] = "config-error"
 				res.Err = err.Error()
@@ -81,7 +81,7 @@ func execute(dir string, j job) result {
 				obs["file:"+f.RelativePath] = fmt.Sprintf("%x", h[:8])
 			}
 		case "inspect":
-			pl, err := codegen.PipelineFromFile(cfg, codegen.Parameters(nil))
+			pl, err := codegen.PipelineFromFile(cfg, codegen.Parameters(map[string]string{"extra_one": "1", "extra_two": "%extra_one%2"}))
 			if err != nil {
 				obs["!status"] = "config-error"
 				res.Err = err.Error()
